@@ -828,44 +828,51 @@ func (ex *Exec) rangeChan(st *State, s *ast.RangeStmt, label string, k func(*Sta
 }
 
 func (ex *Exec) selectStmt(st *State, s *ast.SelectStmt, k func(*State)) {
-	// every arm is explored (nondeterministic choice); arms on nil channels are never taken
-	done := func(st *State) {
-		st.frame.loops = st.frame.loops[:len(st.frame.loops)-1]
-		k(st)
-	}
+	// Go evaluates the channel operands (and the values to send) of ALL arms, in source order, on
+	// entering the select; only then is an arm chosen. Every arm is explored (nondeterministic
+	// choice); arms on nil channels are never taken.
 	n := len(s.Body.List)
-	for i, cl := range s.Body.List {
-		cc := cl.(*ast.CommClause)
-		cur := st
-		if i < n-1 {
-			cur = st.fork()
+	if n == 0 {
+		return // select {} blocks forever
+	}
+	type armOps struct{ ch, v Val }
+	var evalOps func(st *State, i int, ops []armOps)
+	choose := func(st *State, ops []armOps) {
+		done := func(st *State) {
+			st.frame.loops = st.frame.loops[:len(st.frame.loops)-1]
+			k(st)
 		}
-		cur.frame.loops = append(cur.frame.loops, &loopCtx{onBreak: done})
-		body := func(st *State) { ex.block(st, cc.Body, done) }
-		switch c := cc.Comm.(type) {
-		case nil:
-			// default is taken only when no receive arm is ready (a receive is ready when a value
-			// is pending or the channel is closed); readiness of send arms is not modelled
-			ex.selectNotReady(cur, s, func(st *State) { body(st) })
-		case *ast.SendStmt:
-			ex.expr(cur, c.Chan, func(st *State, ch Val) {
-				ex.expr(st, c.Value, func(st *State, v Val) {
-					v = ex.convTo(v, chanElem(ch.Go))
-					ex.chanSend(st, ch, v, c.Pos(), func(st *State) {
-						ex.afterSend(st, c)
-						body(st)
-					})
+		for i, cl := range s.Body.List {
+			cc := cl.(*ast.CommClause)
+			cur := st
+			if i < n-1 {
+				cur = st.fork()
+			}
+			cur.frame.loops = append(cur.frame.loops, &loopCtx{onBreak: done})
+			body := func(st *State) { ex.block(st, cc.Body, done) }
+			switch c := cc.Comm.(type) {
+			case nil:
+				// default is taken only when no receive arm is ready (a receive is ready when a value
+				// is pending or the channel is closed); readiness of send arms is not modelled
+				for j, cl2 := range s.Body.List {
+					switch cl2.(*ast.CommClause).Comm.(type) {
+					case *ast.ExprStmt, *ast.AssignStmt:
+						ch := ops[j].ch
+						ck := ex.chanKeysOf(chanElem(ch.Go))
+						ready := sOr(fmt.Sprintf("(< %s %s)", ex.chGet(cur, ck.pos, ch.T), ex.chGet(cur, ck.n, ch.T)), ex.chGet(cur, ck.closed, ch.T))
+						cur.assume(sOr(sEq(ch.T, "nil"), sNot(ready)))
+					}
+				}
+				body(cur)
+			case *ast.SendStmt:
+				ex.chanSend(cur, ops[i].ch, ops[i].v, c.Pos(), func(st *State) {
+					ex.afterSend(st, c)
+					body(st)
 				})
-			})
-		case *ast.ExprStmt:
-			u := ast.Unparen(c.X).(*ast.UnaryExpr)
-			ex.expr(cur, u.X, func(st *State, ch Val) {
-				ex.chanRecv(st, ch, func(st *State, v, ok Val) { body(st) })
-			})
-		case *ast.AssignStmt:
-			u := ast.Unparen(c.Rhs[0]).(*ast.UnaryExpr)
-			ex.expr(cur, u.X, func(st *State, ch Val) {
-				ex.chanRecv(st, ch, func(st *State, v, ok Val) {
+			case *ast.ExprStmt:
+				ex.chanRecv(cur, ops[i].ch, func(st *State, v, ok Val) { body(st) })
+			case *ast.AssignStmt:
+				ex.chanRecv(cur, ops[i].ch, func(st *State, v, ok Val) {
 					vals := []Val{v, ok}
 					var rec func(st *State, i int)
 					rec = func(st *State, i int) {
@@ -893,15 +900,39 @@ func (ex *Exec) selectStmt(st *State, s *ast.SelectStmt, k func(*State)) {
 					}
 					rec(st, 0)
 				})
+			default:
+				panic(unsupported("select communication clause"))
+			}
+		}
+	}
+	evalOps = func(st *State, i int, ops []armOps) {
+		if i == n {
+			choose(st, ops)
+			return
+		}
+		next := func(st *State, o armOps) {
+			evalOps(st, i+1, append(ops[:len(ops):len(ops)], o))
+		}
+		switch c := s.Body.List[i].(*ast.CommClause).Comm.(type) {
+		case nil:
+			next(st, armOps{})
+		case *ast.SendStmt:
+			ex.expr(st, c.Chan, func(st *State, ch Val) {
+				ex.expr(st, c.Value, func(st *State, v Val) {
+					next(st, armOps{ch: ch, v: ex.convTo(v, chanElem(ch.Go))})
+				})
 			})
+		case *ast.ExprStmt:
+			u := ast.Unparen(c.X).(*ast.UnaryExpr)
+			ex.expr(st, u.X, func(st *State, ch Val) { next(st, armOps{ch: ch}) })
+		case *ast.AssignStmt:
+			u := ast.Unparen(c.Rhs[0]).(*ast.UnaryExpr)
+			ex.expr(st, u.X, func(st *State, ch Val) { next(st, armOps{ch: ch}) })
 		default:
 			panic(unsupported("select communication clause"))
 		}
 	}
-	if n == 0 {
-		// select {} blocks forever
-		return
-	}
+	evalOps(st, 0, nil)
 }
 
 // typeAssert: x.(T). Non-interface T: x must be the box of a T value (boxes are injective
